@@ -1,5 +1,6 @@
 """C20 — agent hook ingestion never fails the agent and never escapes the repository."""
 import copy
+import glob
 import json
 import os
 import random
@@ -119,9 +120,11 @@ def build_layout(w, layout):
     if layout == "nested":
         nested = os.path.join(main, "vendor", "inner")
         mkrepo(nested)
+    sibling = os.path.join(root, "repo-api")          # a sibling whose path merely string-extends the main repository's path
     if layout == "multi":
         mkrepo(other)
         mkrepo(os.path.join(root, "ws", "third"))
+        mkrepo(sibling)
     if layout == "bare":
         mkrepo(bare, bare=True)
     cwds = {"single": [main, os.path.join(main, "dir")], "nested": [main, nested], "multi": [os.path.join(root, "ws"), main, other],
@@ -140,6 +143,7 @@ def build_layout(w, layout):
         files["nested-repo"] = os.path.join(nested, "a.txt")
     if layout == "multi":
         files["other-repo"] = os.path.join(other, "a.txt")
+        files["sibling-prefix-repo"] = os.path.join(sibling, "a.txt")
     if layout == "bare":
         files["bare"] = os.path.join(bare, "HEAD")
     return dict(repos=repos, cwds=cwds, files=files, main=main, nested=nested)
@@ -189,6 +193,51 @@ def scan_logs(w, lay):
     return probs, n_entries
 
 
+def recorded_files(w, repo_root):
+    """Files named by the live working logs of the repository whose work tree is repo_root."""
+    out = set()
+    for p in glob.glob(os.path.join(repo_root, ".git", "ai", "working_logs", "*", "checkpoints.jsonl")):
+        if "/old-" in p:
+            continue
+        try:
+            for ln in open(p, encoding="utf-8"):
+                if ln.strip():
+                    j = json.loads(ln)
+                    if j.get("kind") == "AiAgent" or j.get("agent_id"):
+                        out.update(e["file"] for e in j.get("entries", []))
+        except (ValueError, OSError):
+            pass
+    return out
+
+
+def completeness_probe(w, lay, rng, viol, stats, only=None, flags=()):
+    """A well-formed agent-v1 report of a really edited file must be recorded in the repository that contains the file (and, by
+    scan_logs, nowhere else) - whichever repository the hook was started in."""
+    classes = [c for c in ("abs", "sub", "other-repo", "sibling-prefix-repo", "nested-repo") if c in lay["files"] and ("probe:" + c) not in flags]
+    if only:
+        classes = [c for c in classes if c == only]
+    if not classes:
+        return
+    fclass = rng.choice(classes)
+    f = lay["files"][fclass]
+    owner = max((r for r in lay["repos"] if (f + "/").startswith(r + "/")), key=len, default=None)
+    if owner is None:
+        return
+    cwd = rng.choice([c for c in lay["cwds"] if os.path.isdir(os.path.join(c, ".git")) or c == lay["main"]] or [lay["main"]])
+    pre = {"type": "human", "repo_working_dir": cwd, "will_edit_filepaths": [f]}
+    run([BIN, "checkpoint", "agent-v1", "--hook-input", json.dumps(pre)], cwd, w.env(), timeout=60)
+    with open(f, "a") as fh:
+        fh.write("line written by the agent %d\n" % rng.randrange(10**6))
+    post = {"type": "ai_agent", "repo_working_dir": cwd, "edited_filepaths": [f], "transcript": {"messages": [{"type": "user", "text": "x"}]},
+            "agent_name": "tool", "model": "m", "conversation_id": "CP%d" % rng.randrange(10**6)}
+    pr = run([BIN, "checkpoint", "agent-v1", "--hook-input", json.dumps(post)], cwd, w.env(), timeout=60)
+    stats["completeness_probes"] = stats.get("completeness_probes", 0) + 1
+    rel = os.path.relpath(f, owner)
+    if pr.rc == 0 and rel not in recorded_files(w, owner):
+        viol.append(dict(kind="C20/edited-file-not-recorded-in-its-repository", path_class=fclass, file=f.replace(w.root, "<ROOT>"),
+                         owner=owner.replace(w.root, "<ROOT>"), cwd=cwd.replace(w.root, "<ROOT>"), stderr=pr.stderr[-300:]))
+
+
 def run_case(case):
     seed, index = case["seed"], case["index"]
     rng = random.Random("%s:C20:%s" % (seed, index))
@@ -201,7 +250,13 @@ def run_case(case):
         lay = build_layout(w, layout)
         tp = os.path.join(w.root, "transcript.jsonl")
         open(tp, "w").write(json.dumps({"type": "user", "message": {"role": "user", "content": "hi"}}) + "\n")
-        for k in range(rng.choice([2, 3, 4])):
+        what = dict(step="completeness probe", layout=layout)
+        if layout in ("single", "nested", "multi") and rng.random() < 0.5:
+            completeness_probe(w, lay, rng, viol, stats, flags=case.get("flags_off") or ())
+            probs, n = scan_logs(w, lay)
+            for pb in probs:
+                pb.update(dict(step="completeness probe", layout=layout)); viol.append(pb)
+        for k in range(rng.choice([2, 3, 4]) if not viol else 0):
             preset = rng.choice(PRESETS)
             fclass = rng.choice(sorted(lay["files"]))
             f = lay["files"][fclass]
@@ -279,7 +334,9 @@ def main(tier, seed, replay=None):
             rep.add_results([r])
         return rep.finish(min_nontrivial=0)
     witnesses.replay_for(rep, "C20")
-    cases = (dict(seed=seed, index=i) for i in range(10 ** 6))
+    flags = sorted(R.trigger_off_flags("C20"))
+    rep.extra["trigger_flags_off"] = flags
+    cases = (dict(seed=seed, index=i, flags_off=flags) for i in range(10 ** 6))
     res = R.run_pool(run_case, cases, R.budget(tier, 40, 400))
     allsigs = set()
     for r in res:
